@@ -647,7 +647,7 @@ def _register_m2i():
             else:
                 ctx.prove("invariant.no_pending_delta_for_a_no_line_section", z3.BoolVal(slnd2 is None))
                 ctx.prove("invariant.last_lined_section_unchanged", Z(lsln2) == R2)
-        harness("lm.mapping_to_items.linetable_step[current=%s,entry=%s]" % ("lined" if cur_lined else "no-line", "lined" if new_lined else "no-line"), props=["C10", "C01", "C03"],
+        harness("lm.mapping_to_items.linetable_step[current=%s,entry=%s]" % ("lined" if cur_lined else "no-line", "lined" if new_lined else "no-line"), props=["C10", "C01", "C03", "C05", "C06"],
                 functions=["code_data._line_mapping.mapping_to_items"], configs=["3.10"],
                 assumes=["induction over the mapping entries is the meta-step; the mapping lists every code unit in ascending order (call-site contract of blocks_to_bytes)"],
                 notes="3.10 format: loop body on a generic entry under the invariant 'the pending delta leads CPython's reader from the last lined section to the current section's line': "
@@ -666,7 +666,7 @@ def _register_m2i():
                 ctx.prove("first_entry.invariant_holds_with_reader_line_0", z3.And(Z(slnd) == ln.z, Z(lsln) == ln.z, Z(sln) == ln.z))
             else:
                 ctx.prove("first_entry.invariant_holds_with_reader_line_0", z3.BoolVal(slnd is None and sln is None and lsln == 0))
-    harness("lm.mapping_to_items.linetable_first_entry", props=["C10", "C01", "C03"], functions=["code_data._line_mapping.mapping_to_items"], configs=["3.10"],
+    harness("lm.mapping_to_items.linetable_first_entry", props=["C10", "C01", "C03", "C05", "C06"], functions=["code_data._line_mapping.mapping_to_items"], configs=["3.10"],
             notes="base case of the induction: after the first entry the invariant holds with the reader's running line 0")(h_first)
 
 
@@ -716,7 +716,7 @@ def _register_m2i_lnotab():
                 ctx.prove("step.nothing_emitted_only_when_the_line_is_unchanged", z3.And(ln.z == last_line.z, z3.BoolVal(n_extra == 0)))
                 ctx.prove("invariant.reader_address_unchanged", Z(lb2) == last_bo.z)
             ctx.prove("invariant.reader_line_is_the_entry's_line", Z(ll2) == ln.z)
-        harness("lm.mapping_to_items.lnotab_step[extra_entries=%d]" % n_extra, props=["C10", "C01", "C03"], functions=["code_data._line_mapping.mapping_to_items"], configs=["3.7", "3.8", "3.9"],
+        harness("lm.mapping_to_items.lnotab_step[extra_entries=%d]" % n_extra, props=["C10", "C01", "C03", "C05", "C06"], functions=["code_data._line_mapping.mapping_to_items"], configs=["3.7", "3.8", "3.9"],
                 assumes=["induction over the mapping entries is the meta-step"],
                 notes="lnotab format: loop body on a generic mapping entry with %d recorded zero-width entries, under the invariant 'the reader stands at (last offset, last line)': "
                       "the emitted entries lead PyCode_Addr2Line's reader exactly to (entry offset, entry line); unbounded values" % n_extra)(h)
